@@ -211,10 +211,11 @@ func (l *queue) PurgeOlderThan(when time.Time) error {
 		// If this is the last segment, first append a new one allowing
 		// trimming to proceed.
 		if len(l.segments) == 1 {
-			_, err := l.addSegment()
+			segment, err := l.addSegment()
 			if err != nil {
 				return err
 			}
+			l.tail = segment
 		}
 
 		if err := l.trimHead(); err != nil {
